@@ -311,10 +311,23 @@ class Printer:
             if c.endswith('*') and u.get('kind') != 'MaterializeTemporaryExpr':
                 return e
             return f'(&({c}){{{e}}})' if not self.is_struct(c) else f'(&({c}[1]){{{e}}}[0])'
+        if u.get('kind') == 'ConditionalOperator' and u.get('valueCategory') == 'lvalue' and len(u.get('inner', [])) == 3:
+            # `c ? a : b` is an lvalue in C++ when both operands are (a reference can be bound to it); in C the address is
+            # taken per operand
+            return f'({self.expr(u["inner"][0])} ? {self.addr(u["inner"][1])} : {self.addr(u["inner"][2])})'
         e = self.expr(u)
         m = re.fullmatch(r'\(\*([A-Za-z_]\w*)\)', e)
         if m:
             return m.group(1)
+        if u.get('kind') in ('CXXMemberCallExpr', 'CallExpr') and re.fullmatch(r'[A-Za-z_]\w*\((?:[^()]|\([^()]*\)|\((?:[^()]|\([^()]*\))*\))*\)', e):
+            # a C++ call returning a reference whose (template) mapping is a C function returning the object BY VALUE:
+            # the value is materialised so that its address can be taken (by-name mappings print `(*f(..))` instead)
+            try:
+                c = self.ctype(u['type'])
+            except Unsupported:
+                c = None
+            if c is not None and self.is_struct(c):
+                return f'(&({c}[1]){{{e}}}[0])'
         return f'(&{e})'
 
     def arg(self, a):
